@@ -1,4 +1,5 @@
 import Memterm.Proofs.InvStep
+import Memterm.Proofs.ColInv
 
 /-
   C09 — Screen state is always well-formed.
@@ -42,6 +43,15 @@ theorem reachable_clauses (env : Env) (columns lines : Nat) (cs : List Call)
     (display env s).length = s.lines := by
   have h := reachable_wellformed env columns lines cs hc hl hcb hlb ha
   exact ⟨h.cy, h.cx, h.marg, h.dirty, by simp [display]⟩
+
+/-- every reported cell, the cursor's rendition and every saved rendition have a fg / bg that is
+    a documented colour name or a hexadecimal colour string - in every reachable state -/
+theorem reachable_colours (env : Env) (columns lines : Nat) (cs : List Call) :
+    ColInv (run env (init columns lines) cs) :=
+  colinv_run env cs (col_init columns lines)
+
+theorem step_colours (env : Env) (s : Screen) (c : Call) (h : ColInv s) : ColInv (step env s c) :=
+  colinv_step env h c
 
 theorem display_length (env : Env) (s : Screen) : (display env s).length = s.lines := by
   simp [display]
